@@ -5,7 +5,7 @@
 # checks listed in its meta.json.
 cd "$(dirname "$0")"
 fail=0
-grep '^fixed:' KNOWN_FINDINGS.txt | while read -r _ prop commit rest; do
+[ "$1" = "--seeded-only" ] || grep '^fixed:' KNOWN_FINDINGS.txt | while read -r _ prop commit rest; do
   p=${prop#property=}
   out=$(engine/at_commit.sh HEAD "revert:$commit" -- "$p" 2>&1); rc=$?
   case $rc in
